@@ -2,7 +2,10 @@
 from vf import schema as S, doc
 
 K_SDL = """
-directive @dq(n: Int = 1, t: Tag) on QUERY | MUTATION | SUBSCRIPTION | FIELD | FRAGMENT_DEFINITION | FRAGMENT_SPREAD | INLINE_FRAGMENT
+directive @dq(n: Int = 1, t: Tag, p: P) on QUERY | MUTATION | SUBSCRIPTION | FIELD | FRAGMENT_DEFINITION | FRAGMENT_SPREAD | INLINE_FRAGMENT
+directive @dqf on FIELD
+directive @dqo on QUERY
+directive @dr(must: Int!) on FIELD
 
 interface Node {
   id: ID!
@@ -65,6 +68,8 @@ type Query {
   tag: Tag
   ints: [Int]
   matrix: [[Int!]]
+  need(x: Int!, y: Int): Int
+  lst(xs: [Int!], m: [[Int]], ps: [P]): Int
 }
 
 type Mutation {
@@ -96,6 +101,13 @@ K_DOCS = [
     "{ a { peer { id peer { id } } pets { ... on A { id } } } }",
     "{ a { id } a { name } }",
     "{ c { node { ...NF2 } } pet { ... on Node { id } } } fragment NF2 on Node { id ... on A { a } }",
+    "query D($n: Int = 2) @dq { num @dq(n: $n) ...DF @dq ... @dq(t: \"x\") { color } } fragment DF on Query @dq { need(x: 1) }",
+    "{ lst(xs: [1, 2], m: [[1], null], ps: [{a: 1, c: [2]}]) hello(e: BLUE, t: \"x\", p: {b: \"y\"}) }",
+]
+
+K_SUBSCRIPTIONS = [
+    "subscription S { tick { id a } }",
+    "subscription S($n: Int) { t: tick(n: $n) { ...TF } } fragment TF on A { id name }",
 ]
 
 K_MUTATIONS = [
